@@ -532,6 +532,13 @@ func genAuth(o genOpts, w *bufio.Writer) {
 		f := facts[len(facts)-1]
 		fmt.Fprintf(w, "auth conc %s %s %s %d\n", l[0], f.Method, hexOf([]byte(f.Path)), rounds)
 	}
+	// how the NRF's declaration reaches the CHF: the registration answered 201 (new profile) or 200 (profile replaced), declaring
+	// OAuth2 mandatory or not
+	for _, code := range []string{"201", "200"} {
+		for _, d := range []string{"1", "0"} {
+			fmt.Fprintf(w, "auth nrf %s %s\n", code, d)
+		}
+	}
 	fmt.Fprintf(w, "auth end\n")
 }
 
@@ -647,6 +654,9 @@ func runAuth(line string, t []string) string {
 	}
 	if len(t) > 0 && t[0] == "conc" {
 		return runAuthConc(t)
+	}
+	if len(t) > 0 && t[0] == "nrf" {
+		return runAuthNrf(t) // authnrf.go
 	}
 	if (len(t) != 5 && len(t) != 6) || t[0] != "probe" {
 		return "bad-op"
